@@ -24,6 +24,7 @@ SOFTWARE.
 Parse the input YAML for the bindings
 """
 
+from copy import deepcopy
 from typing import Dict, List, Optional
 
 from teaal.parse.yaml import YamlParser
@@ -84,9 +85,11 @@ class Bindings:
         """
         info = {}
 
+        # Note: components fill in defaults and expand eager bindings in place,
+        # so they must work on their own copy of the binding information
         for einsum in self.components:
             if name in self.components[einsum].keys():
-                info[einsum] = self.components[einsum][name]
+                info[einsum] = deepcopy(self.components[einsum][name])
 
         return info
 
